@@ -9,7 +9,11 @@ import (
 	"log"
 	"math/rand"
 	"os"
+	"runtime/metrics"
+	"strconv"
 	"strings"
+	"sync"
+	"sync/atomic"
 	"time"
 )
 
@@ -89,9 +93,73 @@ func (c *ctx) emit(ev M) {
 		fmt.Fprintln(os.Stderr, "harness error: trace encoding: null in event", string(b[:200]))
 		os.Exit(2)
 	}
+	wd.mu.Lock()
 	c.w.Write(b)
 	c.w.WriteByte('\n')
 	c.count++
+	wd.mu.Unlock()
+	atomic.StoreInt64(&wd.lastEmit, time.Now().UnixNano())
+}
+
+// ---- hang watchdog ---------------------------------------------------------------------------------
+// A call of the library that never returns cannot be observed from inside the call.  A watchdog goroutine
+// therefore watches (a) the live heap - a decoder that loops while appending grows it without bound - and
+// (b) the time since the last recorded event.  When either limit is hit it records ONE `hang` event (with the
+// note the driver left about the call in flight), flushes the trace and ends the process with exit code 3;
+// the orchestrator validates the partial trace, and the trace specification rejects the `hang` event.
+var wd struct {
+	mu       sync.Mutex
+	c        *ctx
+	family   string
+	lastEmit int64
+	note     atomic.Value
+}
+
+// inflight leaves a note about the call that is about to be made (shown in the hang event)
+func inflight(what string, b []byte) {
+	if len(b) > 48 {
+		b = b[:48]
+	}
+	wd.note.Store(M{"what": what, "head": bs(b)})
+}
+
+func startWatchdog(c *ctx, family string) {
+	wd.c, wd.family = c, family
+	atomic.StoreInt64(&wd.lastEmit, time.Now().UnixNano())
+	capMB := uint64(6144)
+	if v, err := strconv.Atoi(os.Getenv("VERIF_MEMCAP_MB")); err == nil && v > 0 {
+		capMB = uint64(v)
+	}
+	stall := 300 * time.Second
+	go func() {
+		s := []metrics.Sample{{Name: "/memory/classes/heap/objects:bytes"}}
+		for {
+			time.Sleep(20 * time.Millisecond)
+			metrics.Read(s)
+			if s[0].Value.Kind() == metrics.KindUint64 && s[0].Value.Uint64() > capMB<<20 {
+				hangAbort(fmt.Sprintf("the live heap grew beyond %d MB during one call: a loop that never ends", capMB))
+			}
+			if time.Duration(time.Now().UnixNano()-atomic.LoadInt64(&wd.lastEmit)) > stall {
+				hangAbort("no call returned for 300 s")
+			}
+		}
+	}()
+}
+
+func hangAbort(what string) {
+	wd.mu.Lock() // never released: nothing may be written after the hang event
+	note, _ := wd.note.Load().(M)
+	if note == nil {
+		note = M{"what": "(no note)", "head": []int{}}
+	}
+	ev := M{"ev": "hang", "prop": os.Getenv("VERIF_PROP"), "what": what, "family": wd.family, "mode": wd.c.mode, "call": note}
+	b, _ := json.Marshal(ev)
+	wd.c.w.Write(b)
+	wd.c.w.WriteByte('\n')
+	wd.c.w.Flush()
+	wd.c.f.Close()
+	fmt.Fprintln(os.Stderr, "HANG-ABORT:", what)
+	os.Exit(3)
 }
 
 func checkVal(v interface{}, path string) error {
@@ -210,6 +278,7 @@ func observe(f func() error) (res string, msg string) {
 	case <-done:
 		return
 	case <-time.After(5 * time.Second):
+		// the goroutine cannot be stopped; if it also allocates, the watchdog ends the run with a hang event
 		return "timeout", "call did not return within 5s"
 	}
 }
@@ -235,7 +304,7 @@ func (c *ctx) bytesN(n int) []byte {
 
 func newRand(seed int64) *rand.Rand { return rand.New(rand.NewSource(seed)) }
 
-func (c *ctx) pick(xs ...int) int { return xs[c.rnd.Intn(len(xs))] }
+func (c *ctx) pick(xs ...int) int        { return xs[c.rnd.Intn(len(xs))] }
 func (c *ctx) pickS(xs ...string) string { return xs[c.rnd.Intn(len(xs))] }
 
 // withSpare returns b as a sub-slice of a larger backing array (guard bytes before, spare capacity
